@@ -137,7 +137,7 @@ Definition fstep (t : nat) (g : gst) (l : lst) : option (gst * lst * list ev) :=
     Some (publish g (img (vsize g) v), set_lst l (prog l) Idle,
           [EAcc (site_fadd m) B_WC 0 KFetchAdd Release Release (wc g) ((wc g + 1) mod W64) true; ERet 0])
   | RByte w0 w buf i =>
-    Some (g, set_lst l (prog l) (r_next w0 w (buf ++ [nth i (cellv g w) 0]) (S i) (vsize g)), [])
+    Some (g, set_lst l (prog l) (r_next w0 w (buf ++ [nth i (cellv g (w - 1)) 0]) (S i) (vsize g)), [])
   | RCas w0 w buf =>
     if N.eqb (wc g) w
     then Some (g, {| prog := prog l; at_pc := Idle; holdsP := holdsP l; loads := (w0, w, buf) :: loads l |},
